@@ -75,3 +75,9 @@ func (x *Ctx) internalIndex(s, sub []byte) {
 			itoa(strcase.VerifBruteForceIndexUnicode(string(s), string(sub))), itoa(bytcase.VerifBruteForceIndexUnicode(s, sub)))
 	}
 }
+
+// rkPrime: the multiplier of the rolling hash, read off the code (the power returned for a needle of one code point)
+func rkPrime() uint32 {
+	_, pow, _ := strcase.VerifHashStrUnicode("a")
+	return pow
+}
